@@ -957,6 +957,18 @@ def finish_sub(run, tid, expected):
                     after_close_ok = False
                 except Exception:
                     pass
+    # "each side sees connectionLost exactly once": at most once at any time (P_OpensOnce), and - at rest, everything in flight
+    # having arrived - once on both sides of every subchannel that either application closed (loseConnection) and that had
+    # appeared at the other side (a listener that came late included)
+    if not run.half:
+        for sid in sorted(ids):
+            eo, ea = ends.get("%do" % sid), ends.get("%da" % sid)
+            if eo is None or ea is None or not any(x[0] == "made" for x in ea["ev"]):
+                continue
+            if any(c == ["close", "ok"] for c in eo["calls"] + ea["calls"]):
+                for tag, en in (("opener", eo), ("acceptor", ea)):
+                    if not any(x[0] == "lost" for x in en["ev"]):
+                        missing.append("subchannel %s was closed and is at rest: no connectionLost at its %s" % (sid, tag))
     held = max(run.max_held, run._held())
     rec = {"tid": tid, "kind": "sub", "issued": [], "delivered": [], "goal": False,
            "internal": [repr(e)[:120] for e in w.logged if type(e).__name__ not in
@@ -1081,6 +1093,21 @@ SUB_CONFIGS = {
 SUB_SIM_ONLY = {
     "several_each": (dict(Names={"a"}, Expected=UNSET, MaxOpens=2, MaxWrites=1, Half=False, Openers={"L", "F"}), None, False),
     "several_each_named": (dict(Names={"a", "u"}, Expected=EXPF, MaxOpens=3, MaxWrites=0, Half=False, Openers={"L", "F"}), {"F": ["a"]}, False),
+}
+
+
+# what a listener that comes late finds waiting (SubchannelDemultiplex._connect -> SubChannel._deliver_queued_data):
+# an OPEN and its CLOSE with nothing in between, data and a CLOSE, data only; the same with half-closeable protocols
+_LATE = 'last[1] = "AppListen" /\\ \\E id \\in Ids : LET ev == ends[id].a.ev IN Len(ev) >= 1 /\\ ev[1][1] = "made" /\\ '
+SUB_GOALS = {
+    "basic": {"late_listen_close_only": _LATE + 'Len(ev) = 2 /\\ ev[2][1] = "lost"',
+              "late_listen_data_close": _LATE + 'Len(ev) >= 3 /\\ ev[2][1] = "data" /\\ ev[Len(ev)][1] = "lost"',
+              "late_listen_data_only": _LATE + 'Len(ev) = 2 /\\ ev[2][1] = "data"',
+              "late_listen_nothing_waiting": _LATE + 'Len(ev) = 1'},
+    "half": {"late_listen_close_only_half": _LATE + 'Len(ev) = 2 /\\ ev[2][1] # "data"',
+             "late_listen_data_close_half": _LATE + 'Len(ev) >= 3 /\\ ev[2][1] = "data" /\\ ev[Len(ev)][1] # "data"'},
+    "both_open": {"late_listen_close_only_F": 'last[1] = "AppListen" /\\ last[2] = "L" /\\ \\E id \\in Ids : LET ev == ends[id].a.ev IN '
+                                              'Len(ev) = 2 /\\ ev[1][1] = "made" /\\ ev[2][1] = "lost"'},
 }
 
 
@@ -1244,12 +1271,17 @@ def run(prop, tier):
                              depth=30 if name in SUB_CONFIGS else 45, seed=seed + 13, timeout=900)
                 if name in SUB_SIM_ONLY:
                     cov["tlc_configs"][name] = {"mode": "simulation only", "result": "ok" if not rs.violated else rs.violated, "wall_s": round(rs.wall, 1)}
-                behaviours += list(tlc.read_sim_traces(os.path.join(simdir, "tr")))
-                for tr in behaviours:
+                behaviours = [(tr, "tlc-sim") for tr in behaviours + list(tlc.read_sim_traces(os.path.join(simdir, "tr")))]
+                if name in SUB_GOALS:
+                    # coverage goals: situations simulation seldom reaches, as shortest behaviours (negated invariants)
+                    wit, unreached = common.witnesses(wd, "DilationSub", consts, SUB_GOALS[name], "MC_C13_goal_" + name)
+                    cov.setdefault("witness_goals", {})[name] = {"reached": [g_ for g_, _ in wit], "unreached": unreached}
+                    behaviours += [(tr, "tlc-witness:" + g_) for g_, tr in wit]
+                for tr, origin_ in behaviours:
                     tid += 1
                     run_, drift = replay_sub(tid, tr, None, expected, half)
                     rec = finish_sub(run_, tid, expected)
-                    rec["origin"], rec["config"] = "tlc-sim", name
+                    rec["origin"], rec["config"] = origin_, name
                     records.append(rec)
                     meta[tid] = {"schedule": run_.schedule, "config": name}
                     if drift:
